@@ -77,9 +77,13 @@ theorem decodeCap_encode (c : CapM) (rest : Bytes) :
     decodeCellID (encodeCellID c ++ rest) = some (c, rest) := by
   simp [decodeCellID, encodeCellID]
 
-theorem decodeCell_encode (c : UInt64) (rest : Bytes) :
+theorem decodeCell_encode (c : UInt64) (hv : S2.CellID.isValid c = true) (rest : Bytes) :
     decodeCell (encodeCell c ++ rest) = some (c, rest) := by
-  simp [decodeCell, encodeCell]
+  simp [decodeCell, encodeCell, hv]
+
+theorem decodeCell_encode_invalid (c : UInt64) (hv : S2.CellID.isValid c = false) (rest : Bytes) :
+    decodeCell (encodeCell c ++ rest) = none := by
+  simp [decodeCell, encodeCell, hv]
 
 /-! ### CellUnion -/
 
